@@ -174,7 +174,21 @@ func checkReceiver(p *Prog, r *Report, fn *ssa.Function) {
 		}
 	}
 	isErrc := func(s *Seg, ch ssa.Value) bool {
-		return errc != nil && p.SameOrigin(s.Resolve(ch), errc)
+		if errc == nil {
+			return false
+		}
+		if p.SameOrigin(s.Resolve(ch), errc) {
+			return true
+		}
+		// through goroutine parameters and captured variables
+		for _, oa := range p.OriginsIP(s.Resolve(ch)) {
+			for _, ob := range p.OriginsIP(errc) {
+				if oa == ob {
+					return true
+				}
+			}
+		}
+		return false
 	}
 
 	// classify predicates called on the read error
@@ -458,5 +472,18 @@ func isErrPredicate(f *ssa.Function) bool {
 	if b, ok := sig.Results().At(0).Type().Underlying().(*types.Basic); !ok || b.Kind() != types.Bool {
 		return false
 	}
-	return types.Identical(sig.Params().At(0).Type(), types.Universe.Lookup("error").Type())
+	if !types.Identical(sig.Params().At(0).Type(), types.Universe.Lookup("error").Type()) {
+		return false
+	}
+	// a classifier only looks at the error: a func(error) bool that sends, receives or selects is a
+	// reporting helper (expanded in place), not a classification predicate
+	for _, b := range f.Blocks {
+		for _, in := range b.Instrs {
+			switch in.(type) {
+			case *ssa.Send, *ssa.Select, *ssa.Go:
+				return false
+			}
+		}
+	}
+	return true
 }
